@@ -457,6 +457,13 @@ func (r *Run) explore(g Group, h HarnessSpec, fn *ssa.Function) *HarnessResult {
 
 				pstart := time.Now()
 				res := interp.RunPath(cfg, sess, p)
+				if os.Getenv("GOSYM_PATHLOG") == "2" {
+					var kb strings.Builder
+					for _, d := range res.Trail {
+						fmt.Fprintf(&kb, "%c%d/%d ", d.Kind, d.Choice, d.N)
+					}
+					fmt.Fprintf(os.Stderr, "trail %s\n", kb.String())
+				}
 				if os.Getenv("GOSYM_PATHLOG") != "" {
 					fmt.Fprintf(os.Stderr, "path w%d prefix=%d trail=%d status=%s steps=%d queries=%d forks=%d %.2fs %s\n", w, len(p), len(res.Trail), res.Status, res.Steps, res.Queries, len(res.Forks), time.Since(pstart).Seconds(), firstLines(res.Msg, 9))
 				}
